@@ -91,4 +91,45 @@ def selectAlpha (tol one : α) (roots : List (α × α)) : Except PyErr α :=
   | r :: rs => .ok (minL (r :: rs))
 
 end
+/-! ### piecewise-flat look-ups of `IborCapVolCurve`: `caplet_vol(t)` and `cap_vol(t)` as coded
+
+      def caplet_vol(self, dt):                       def cap_vol(self, dt):
+          if t <= self.times[1]:                          vol = self._cap_sigmas[0]
+              return self._caplet_gammas[1]               for i in range(1, num_vols):
+          vol = self._caplet_gammas[1]                        if self.times[i] >= t:
+          for i in range(1, num_vols):                            vol = self._cap_sigmas[i]; return vol
+              if self.times[i] >= t:                      return self._cap_sigmas[-1]
+                  vol = self._caplet_gammas[i]; return vol
+          return self._caplet_gammas[-1]
+
+`times[i] >= t` is `t ≤ times[i]`.  The pillars scanned by the loop are the pairs `(times[i], value[i])`, `i ≥ 1`. -/
+section
+variable {α : Type} [LE α] [DecidableRel (α := α) (· ≤ ·)]
+
+/-- `for i …: if times[i] >= t: return vals[i]` over the remaining pillars; falling off the end returns `last`
+(`vals[-1]`) -/
+def scanPillars (t : α) : List (α × α) → α → α
+  | [], last => last
+  | (ti, vi) :: rest, last => if t ≤ ti then vi else scanPillars t rest last
+
+/-- `xs[-1]` of the non-empty list `a :: l` -/
+def lastOf (a : α) : List α → α
+  | [] => a
+  | b :: l => lastOf b l
+
+/-- `IborCapVolCurve.cap_vol(t)`; `times`, `sigmas` are the object's arrays (length ≥ 1, checked by the constructor) -/
+def capVolAt (times sigmas : List α) (t : α) : Except PyErr α :=
+  match times, sigmas with
+  | _ :: ts, s0 :: ss => .ok (scanPillars t (ts.zip ss) (lastOf s0 ss))
+  | _, _ => .error .indexError
+
+/-- `IborCapVolCurve.caplet_vol(t)`; needs `times[1]` and `gammas[1]` (length ≥ 2, checked by the constructor) -/
+def capletVolAt (times gammas : List α) (t : α) : Except PyErr α :=
+  match times, gammas with
+  | _ :: t1 :: ts, g0 :: g1 :: gs =>
+    if t ≤ t1 then .ok g1 else .ok (scanPillars t ((t1 :: ts).zip (g1 :: gs)) (lastOf g0 (g1 :: gs)))
+  | _, _ => .error .indexError
+
+end
+
 end FinVerif.Model.C04
